@@ -60,7 +60,12 @@ def gen_k50(rng, n, nconst=3, downward=True, nested=0.2, fresh_only=False):
         # polar tables (all facts near TRUE / near FALSE) are the ones on which the bound a quantifier must NOT touch would move
         polar = rng.choice([None, None, None, 1, 0])
 
+        # repeated tables: several instances carry the very same fuzzy bounds (aggregation must still count each of them)
+        repeated = rng.choice([None, None, None, [F(3, 4), F(7, 8)], [F(1, 8), F(1, 4)], [F(1, 2), F(3, 4)]])
+
         def fact():
+            if repeated is not None and rng.random() < 0.8:
+                return list(repeated)
             if polar is None:
                 return gen_fol.rnd_fact(rng, 0.5)
             b = rng.choice([[F(1), F(1)], [F(1), F(1)], [F(7, 8), F(1)], [F(3, 4), F(7, 8)]])
